@@ -126,8 +126,9 @@ class SymbolDBPersistor(ISymbolDBPersistor):
 			Globパターン
 		"""
 		basepath = module_path_to_filepath(module.path)
-		filename = f'{basepath}-symbols-*.json'
-		return os.path.abspath(os.path.join(os.getcwd(), self.setting.basedir, filename))
+		# XXX 作業ディレクトリー名にGlobのメタ文字('[', '*', '?')が含まれていても旧ファイルを検出できるようにエスケープ
+		basepath_abs = os.path.abspath(os.path.join(os.getcwd(), self.setting.basedir, basepath))
+		return f'{glob.escape(basepath_abs)}-symbols-*.json'
 
 	def _can_store(self, module: Module, filepath: str) -> bool:
 		"""保存を実施するか判定
